@@ -10,6 +10,7 @@ mod c15;
 mod c06;
 mod c19;
 mod c10;
+mod c04;
 mod util;
 
 /// Counting allocator: live heap bytes of the process (C17 measures the receiver with it).
@@ -48,7 +49,11 @@ fn main() {
         std::process::exit(2);
     }
     util::quiet_panics();
-    let args = util::parse_args(&argv[2..]);
+    let mut args = util::parse_args(&argv[2..]);
+    if argv[1] == "toi-light" {
+        // second C15 run entry of the thorough tier: quick sizes on both build profiles
+        args.rest.push("light".into());
+    }
     match argv[1].as_str() {
         "part" => c07::run(&args),
         "encode" => c08::run(&args, false),
@@ -57,10 +62,11 @@ fn main() {
         "recv" | "memrecv" | "session" | "loss" | "carousel" => c09::run(&args, argv[1].as_str()),
         "path" => c05::run(&args),
         "multi" => c18::run(&args),
-        "toi" => c15::run(&args),
+        "toi" | "toi-light" => c15::run(&args),
         "wire" => c06::run(&args),
         "expiry" => c19::run(&args),
         "fdt" => c10::run(&args),
+        "fuzzrecv" => c04::run(&args),
         other => {
             eprintln!("unknown subcommand {}", other);
             std::process::exit(2);
